@@ -1501,21 +1501,35 @@ func checkStoreFailureReplies(r *Report, p *Prog) {
 			continue
 		}
 		a := NewAnalysis(p)
+		// the steps a handler is split into (load the previous record, store, register) are part of it: a store error
+		// that a step swallows is an error the handler did not act on
+		a.Inline = func(f *ssa.Function) bool {
+			return inPkg(f, idpPkgPath) && p.InLibrary(f) && f != fn && (f.Object() == nil || !f.Object().Exported()) && !isHandlerShaped(f)
+		}
 		B := a.B
-		fc := a.Ctx(fn)
+		rg := NewRegion(p, fn, 2)
+		fc := rg.Ctx(a, rg.top)
 		fc.ensureConds()
 		// store calls and their error atoms
 		type sc struct {
 			call *ssa.Call
 			nilA string
+			cond *bddNode
 		}
 		var scs []sc
-		for _, b := range fn.Blocks {
-			for _, in := range b.Instrs {
-				if c, ok := in.(*ssa.Call); ok && storeCallKind(&c.Call) != "" {
-					ev := errResultValue(c)
-					if ev != nil {
-						scs = append(scs, sc{c, "isnil(" + fc.AP(ev) + ")"})
+		for _, c := range rg.all {
+			if c != rg.top && isHandlerShaped(c.fn) {
+				continue
+			}
+			cfc := rg.Ctx(a, c)
+			cfc.ensureConds()
+			for _, b := range c.fn.Blocks {
+				for _, in := range b.Instrs {
+					if call, ok := in.(*ssa.Call); ok && storeCallKind(&call.Call) != "" {
+						ev := errResultValue(call)
+						if ev != nil {
+							scs = append(scs, sc{call, "isnil(" + cfc.AP(ev) + ")", cfc.AbsCond(b)})
+						}
 					}
 				}
 			}
@@ -1523,48 +1537,55 @@ func checkStoreFailureReplies(r *Report, p *Prog) {
 		if len(scs) == 0 {
 			continue
 		}
-		for _, b := range fn.Blocks {
-			for _, in := range b.Instrs {
-				c, ok := in.(*ssa.Call)
-				if !ok {
-					continue
-				}
-				success := false
-				what := ""
-				if c.Call.IsInvoke() && c.Call.Method.Name() == "WriteHeader" {
-					if k, ok := constInt(c.Call.Args[0]); ok && k < 400 {
-						success = true
-						what = fmt.Sprintf("WriteHeader(%d)", k)
-					}
-				}
-				if calleeIs(c, "(*encoding/json.Encoder).Encode") || calleeIs(c, "(*encoding/xml.Encoder).Encode") {
-					success = true
-					what = "encoded result"
-				}
-				if !success {
-					continue
-				}
-				cnd := fc.Cond(b)
-				for _, s := range scs {
-					if !B.HasVar(s.nilA) {
+		for _, c := range rg.all {
+			if c != rg.top && isHandlerShaped(c.fn) {
+				continue
+			}
+			cfc := rg.Ctx(a, c)
+			cfc.ensureConds()
+			for _, b := range c.fn.Blocks {
+				for _, in := range b.Instrs {
+					call, ok := in.(*ssa.Call)
+					if !ok {
 						continue
 					}
-					failed := B.And(B.And(cnd, fc.Cond(s.call.Block())), B.Not(B.Var(s.nilA)))
-					if failed == B.False {
-						continue
-					}
-					// allowed only when the failure is the not-found error
-					okNF := false
-					for _, nm := range B.Support(failed) {
-						if strings.Contains(nm, "ErrNotFound") && strings.HasPrefix(nm, "eq(") && B.Implies(failed, B.Var(nm)) {
-							okNF = true
+					success := false
+					what := ""
+					if call.Call.IsInvoke() && call.Call.Method.Name() == "WriteHeader" {
+						if k, ok := constInt(call.Call.Args[0]); ok && k < 400 {
+							success = true
+							what = fmt.Sprintf("WriteHeader(%d)", k)
 						}
 					}
-					cons := fmt.Sprintf("%s: %s after a failed Store.%s", p.FnName(fn), what, storeCallKind(&s.call.Call))
-					if okNF {
-						r.OK("C19.store-errors", cons, p.InstrPos(in), "only for the distinguished not-found error")
-					} else {
-						r.Bad("C19.store-errors", cons, p.InstrPos(in), "the handler acknowledges success on a path where the backing store reported an error")
+					if calleeIs(call, "(*encoding/json.Encoder).Encode") || calleeIs(call, "(*encoding/xml.Encoder).Encode") {
+						success = true
+						what = "encoded result"
+					}
+					if !success {
+						continue
+					}
+					cnd := cfc.AbsCond(b)
+					for _, s := range scs {
+						if !B.HasVar(s.nilA) {
+							continue
+						}
+						failed := B.And(B.And(cnd, s.cond), B.Not(B.Var(s.nilA)))
+						if failed == B.False {
+							continue
+						}
+						// allowed only when the failure is the not-found error
+						okNF := false
+						for _, nm := range B.Support(failed) {
+							if strings.Contains(nm, "ErrNotFound") && strings.HasPrefix(nm, "eq(") && B.Implies(failed, B.Var(nm)) {
+								okNF = true
+							}
+						}
+						cons := fmt.Sprintf("%s: %s after a failed Store.%s", p.FnName(fn), what, storeCallKind(&s.call.Call))
+						if okNF {
+							r.OK("C19.store-errors", cons, p.InstrPos(in), "only for the distinguished not-found error")
+						} else {
+							r.Bad("C19.store-errors", cons, p.InstrPos(in), "the handler acknowledges success on a path where the backing store reported an error (store call at "+p.InstrPos(s.call)+")")
+						}
 					}
 				}
 			}
